@@ -158,9 +158,16 @@ theorem rref_keeps_group (t t' : STab) (brs : List String) (hg : t.Good) (hr : t
 
 /-! ## Completeness of the solver model (Li–Economou–Barnes) -/
 
-/-- completeness of `inverse_circuit` (property C11, proved on its own branch): on every real commuting generating set it returns and
-    reaches |0…0⟩.  It is the only hypothesis of the completeness theorems below. -/
-abbrev InverseCircuitComplete : Prop := ∀ t : STab, t.Good → ∃ t' c, t.inverseCircuit = .ok (t', c) ∧ t'.isZero = true
+/-- completeness of `inverse_circuit` (property C11, proved on branch deep-c11 as `STab.inverseCircuit_complete`): on every valid
+    stabilizer tableau — real, commuting generators that are independent over GF(2) (no non-empty selection multiplies to the identity
+    string; on dependent generators `canonical_form` hits its final assertion, so `Good` alone would make the hypothesis false) — it
+    returns and reaches |0…0⟩.  The independence clause is, verbatim, C11's `STab.Indep`, so at merge the hypothesis is discharged by
+    `fun t hg hi => STab.inverseCircuit_complete t hg hi`.  It is the only hypothesis of the completeness theorems below. -/
+abbrev InverseCircuitComplete : Prop :=
+  ∀ t : STab, t.Good →
+    (∀ S : Nat → Bool, (∀ j, j < t.n → parityTo t.n (fun i => S i && (t.row i).x j) = false ∧
+        parityTo t.n (fun i => S i && (t.row i).z j) = false) → ∀ i, i < t.n → S i = false) →
+    ∃ t' c, t.inverseCircuit = .ok (t', c) ∧ t'.isZero = true
 
 /-- **completeness, full statement**: for every simple graph on at least one vertex without isolated vertex the solver model returns
     and its final working tableau generates exactly the signed group of |0…0⟩ (the semantic content of the flag `hfinal` the driver
@@ -179,7 +186,7 @@ theorem solver_complete (hinv : InverseCircuitComplete) : solver_complete_statem
 
 /-- the same for **any stabilizer target**: real, commuting, independent generators on at least one qubit, no qubit of which is a
     product qubit (`NotProd`: no group element is supported on that qubit alone) -/
-theorem solver_complete_stabilizer (hinv : InverseCircuitComplete) (target : STab) (hg : target.Good) (hi : target.Indep)
+theorem solver_complete_stabilizer (hinv : InverseCircuitComplete) (target : STab) (hg : target.Good) (hi : target.LinIndep)
     (hn : 0 < target.n) (hnp : ∀ p, p < target.n → target.NotProd p) :
     ∃ s, Solver.solve target = .ok s ∧ SpanEq s.t (STab.zero (target.n + s.ne)) :=
   Solver.solve_complete_stabilizer hinv target hg hi hn hnp
@@ -206,7 +213,7 @@ theorem solve_correct (hinv : InverseCircuitComplete) (np : Nat) (adj : Nat → 
 abbrev LoopInvariant (np ne m : Nat) (s : Solver.St) : Prop := Solver.RInv np ne m s
 
 /-- the invariant holds when the loop starts (`ne = determine_n_emitters(target)`) -/
-theorem loop_invariant_initially (target : STab) (hg : target.Good) (hi : target.Indep) (ne : Nat)
+theorem loop_invariant_initially (target : STab) (hg : target.Good) (hi : target.LinIndep) (ne : Nat)
     (hdet : Solver.determineNEmitters target = .ok ne) (hnp : ∀ p, p < target.n → target.NotProd p) :
     LoopInvariant target.n ne target.n { np := target.n, ne := ne, t := Solver.withEmitters target ne, circ := [] } :=
   Solver.rinv_init target hg hi ne hdet hnp
@@ -272,7 +279,7 @@ theorem inverse_circuit_touches_emitters_only (t t' : STab) (circ : List Gate) (
 
 /-- **`rref` returns on every independent generating set, in echelon form** (its fuel `n + 1` suffices, its assertions never fire),
     and keeps literal columns literal -/
-theorem rref_returns (t : STab) (hi : t.Indep) :
+theorem rref_returns (t : STab) (hi : t.LinIndep) :
     ∃ t' brs piv, t.rref = .ok (t', brs) ∧ STab.Echelon t' piv ∧ ∀ q, q < t.n → t.Lit q → t'.Lit q := by
   obtain ⟨t', brs, piv, h1, h2⟩ := STab.rref_ok_of_indep t hi
   exact ⟨t', brs, piv, h1, h2, fun q hq hl => STab.rref_lit t t' brs q hq hl h1⟩
